@@ -69,9 +69,85 @@ def gobs(o):
 
 
 # ---------------------------------------------------------------------------------- running the binary
+# ---- every invocation of the binary is recorded (for C16: no loadable project makes a command panic, die by a signal or hang)
+import threading
+CMDLOG = []
+CMDLOG_LOCK = threading.Lock()
+KNOWN_PANICS = [("C16-sqlite-interval", "Interval is not available in Sqlite"),
+                ("C16-sqlite-numeric-precision", "precision cannot be larger than 16")]
+
+
+def snapshot_dir(cwd, limit=60):
+    """the project a command ran in, as {relative path: text} (config, model files, migration files)"""
+    out = {}
+    for dp, dn, fn in os.walk(cwd):
+        dn[:] = [d for d in dn if not d.endswith("__literal") and d not in ("coq", "target")]
+        for f in fn:
+            if len(out) >= limit:
+                return out
+            if f.endswith((".json", ".yaml", ".yml")):
+                p = os.path.join(dp, f)
+                try:
+                    out[os.path.relpath(p, cwd)] = open(p, errors="replace").read()[:20000]
+                except OSError:
+                    pass
+    return out
+
+
+def log_cmd(args, cwd, rc, err, timed_out):
+    panic = rc == 101 or "panicked at" in err
+    signal = rc is not None and rc < 0 and not timed_out
+    e = {"cmd": args[0] if args else "", "rc": rc, "panic": panic, "signal": signal, "timeout": timed_out}
+    if panic or signal or timed_out:
+        e["args"] = list(args)
+        e["stderr"] = err[-600:]
+        e["known"] = next((k for k, msg in KNOWN_PANICS if msg in err), None)
+        e["project"] = snapshot_dir(cwd)
+        e["cwd"] = cwd
+    with CMDLOG_LOCK:
+        CMDLOG.append(e)
+
+
+def bin_identity():
+    try:
+        st = os.stat(BIN)
+        return "%d:%d" % (st.st_size, int(st.st_mtime))
+    except OSError:
+        return "missing"
+
+
+def save_cmdlog(name, tier, seed, start):
+    """summary of the invocations since index [start], kept next to the run directories for c16_part"""
+    with CMDLOG_LOCK:
+        entries = CMDLOG[start:]
+    by = {}
+    for e in entries:
+        d = by.setdefault(e["cmd"], {"n": 0, "exit0": 0, "exit1": 0, "panic": 0, "signal": 0, "timeout": 0, "other": 0})
+        d["n"] += 1
+        k = "panic" if e["panic"] else "signal" if e["signal"] else "timeout" if e["timeout"] else "exit0" if e["rc"] == 0 else "exit1" if e["rc"] == 1 else "other"
+        d[k] += 1
+    allbad = [e for e in entries if e["panic"] or e["signal"] or e["timeout"]]
+    known = {}
+    for e in allbad:
+        if e.get("known") and e["panic"]:
+            known[e["known"]] = known.get(e["known"], 0) + 1
+    # every unexplained one is kept (the first 40 with their project), explained ones only as counts
+    bad = [e for e in allbad if not (e.get("known") and e["panic"])]
+    os.makedirs(WORK, exist_ok=True)
+    json.dump({"binary": bin_identity(), "by_command": by, "bad": bad[:40], "n_bad": len(bad), "known": known},
+              open(os.path.join(WORK, "cmdlog_%s_%s_%s.json" % (name, tier, seed)), "w"))
+
+
 def run_cmd(args, cwd, timeout=60):
-    p = subprocess.run([BIN] + args, cwd=cwd, env=RUN_ENV, capture_output=True, timeout=timeout, stdin=subprocess.DEVNULL)
-    return p.returncode, p.stdout.decode(errors="replace"), p.stderr.decode(errors="replace")
+    try:
+        p = subprocess.run([BIN] + args, cwd=cwd, env=RUN_ENV, capture_output=True, timeout=timeout, stdin=subprocess.DEVNULL)
+    except subprocess.TimeoutExpired as ex:
+        err = (ex.stderr or b"").decode(errors="replace") if isinstance(ex.stderr, (bytes, bytearray)) else ""
+        log_cmd(args, cwd, None, err, True)
+        return 124, "", "timeout after %ds\n%s" % (timeout, err)
+    out, err = p.stdout.decode(errors="replace"), p.stderr.decode(errors="replace")
+    log_cmd(args, cwd, p.returncode, err, False)
+    return p.returncode, out, err
 
 
 def run_pty(args, cwd, timeout=30):
@@ -101,6 +177,7 @@ def run_pty(args, cwd, timeout=30):
     p.wait()
     os.close(m)
     txt = out.decode(errors="replace")
+    log_cmd(args, cwd, p.returncode, txt, time.time() - t0 > timeout)
     return p.returncode, txt, txt
 
 
@@ -908,6 +985,7 @@ def c12_part(tier, seed):
     hcli, err = build_all()
     if err:
         return {"ok": False, "details": {"build_error": err}, "failing_input": None}
+    cmd_start = len(CMDLOG)
     base = os.path.join(WORK, "c12part_%s_%s" % (tier, seed))
     shutil.rmtree(base, ignore_errors=True)
     os.makedirs(base)
@@ -942,6 +1020,7 @@ def c12_part(tier, seed):
         r = bad[0][0]
         fi = {"config": r["config"], "models": r["models"], "migrations": r["migrations"], "message": r["message"], "fills": r["fills"],
               "tty": r["tty"], "what": bad[0][1], "written": r["obs"].get("wrote")}
+    save_cmdlog("c12part", tier, seed, cmd_start)
     shutil.rmtree(base, ignore_errors=True)
     return {"ok": not bad, "details": details, "failing_input": fi}
 
@@ -1031,6 +1110,7 @@ def c14_part(tier, seed):
     hcli, err = build_all()
     if err:
         return {"ok": False, "details": {"build_error": err}, "failing_input": None}
+    cmd_start = len(CMDLOG)
     base = os.path.join(WORK, "c14part_%s_%s" % (tier, seed))
     shutil.rmtree(base, ignore_errors=True)
     os.makedirs(base)
@@ -1090,8 +1170,71 @@ def c14_part(tier, seed):
     details = {"project_states": states, "cached_kcli_projects_with_prefix": cached, "streams": len(streams), "skipped_unparsable": skipped,
                "sql_log_comparisons (3 backends)": comparisons,
                "failures": [{"tag": t, "prefix": c.get("prefix"), **d} for t, c, _, d in bad][:8]}
+    save_cmdlog("c14part", tier, seed, cmd_start)
     shutil.rmtree(base, ignore_errors=True)
     return {"ok": not bad, "details": details, "failing_input": failing}
+
+
+
+# =================================================================================== C16 on the real binary
+def c16_part(tier, seed):
+    """C16 (no loadable project makes any stage panic, overflow the stack or hang) with the REAL BINARY as the stage: every
+    invocation of `vespertide diff|sql|status|log|revision|export` made by run_cli, run_tree, c12_part and c14_part (K-cli
+    evolutions, corpus, fill / overwrite / fkname streams, K-tree sequences, prefix streams) is recorded with its exit status;
+    exit 101 / "panicked at" / death by a signal / a timeout is a failure unless its message is that of an open C16 finding.
+    The recorded runs are reused when they were made with the binary that is current now; otherwise they are made again.
+    returns dict(ok, details, failing_input)"""
+    hcli, err = build_all()
+    if err:
+        return {"ok": False, "details": {"build_error": err}, "failing_input": None}
+    ident = bin_identity()
+
+    def load(name):
+        p = os.path.join(WORK, "cmdlog_%s_%s_%s.json" % (name, tier, seed))
+        if os.path.exists(p):
+            try:
+                d = json.load(open(p))
+                if d.get("binary") == ident:
+                    return d
+            except Exception:
+                pass
+        return None
+    logs, reran = {}, []
+    for name, runner in (("c13", run_cli), ("c20", run_tree)):
+        d = load(name)
+        if d is None:
+            runner(tier, seed)
+            reran.append(name)
+            d = load(name)
+        if d is not None:
+            logs[name] = d
+    for name in ("c12part", "c14part"):
+        d = load(name)
+        if d is not None:
+            logs[name] = d
+    by, bad = {}, []
+    for name, d in logs.items():
+        for cmd, c in d["by_command"].items():
+            t = by.setdefault(cmd, {k: 0 for k in c})
+            for k, v in c.items():
+                t[k] = t.get(k, 0) + v
+        bad += [dict(e, run=name) for e in d["bad"]]
+    known, unknown, n_unknown = {}, bad, 0
+    for name, d in logs.items():
+        n_unknown += d.get("n_bad", 0)
+        for k, v in d.get("known", {}).items():
+            known[k] = known.get(k, 0) + v
+    details = {"commands_observed": sum(c["n"] for c in by.values()), "by_command": by,
+               "panics": sum(1 for e in unknown if e["panic"]), "signals": sum(1 for e in unknown if e["signal"]),
+               "timeouts": sum(1 for e in unknown if e["timeout"]), "known": known,
+               "runs_reused": sorted(set(logs) - set(reran)), "runs_made_now": reran,
+               "first_failures": [{"run": e["run"], "command": e["args"], "rc": e["rc"], "stderr": e["stderr"][-300:]} for e in unknown[:5]]}
+    fi = None
+    if unknown:
+        e = unknown[0]
+        fi = {"command": ["vespertide"] + e["args"], "exit": e["rc"], "stderr": e["stderr"], "project": e["project"]}
+    details["unexplained_total"] = n_unknown
+    return {"ok": not unknown and n_unknown == 0, "details": details, "failing_input": fi}
 
 
 def sizes(tier):
@@ -1143,6 +1286,7 @@ def run_cli(tier, seed):
     base = os.path.join(WORK, "c13_%s_%s" % (tier, seed))
     shutil.rmtree(base, ignore_errors=True)
     os.makedirs(base)
+    cmd_start = len(CMDLOG)
     t0 = time.time()
     rows = []
     for f in sorted(glob.glob(os.path.join(ROOT, "corpus", "cli", "c13_*.json"))):
@@ -1165,6 +1309,7 @@ def run_cli(tier, seed):
         f = oracle_c13(r, post)
         if f:
             fails[i] = f
+    save_cmdlog("c13", tier, seed, cmd_start)
     return {"rows": rows, "mismatches": mism, "classes": classes, "errors": errors, "fails": fails, "skipped": len(skipped),
             "drive_s": round(drive_s, 1), "dir": base}
 
@@ -1412,6 +1557,7 @@ def run_tree(tier, seed):
     base = os.path.join(WORK, "c20_%s_%s" % (tier, seed))
     shutil.rmtree(base, ignore_errors=True)
     os.makedirs(base)
+    cmd_start = len(CMDLOG)
     t0 = time.time()
     rows = []
     for f in sorted(glob.glob(os.path.join(ROOT, "corpus", "cli", "c20_*.json"))):
@@ -1430,6 +1576,7 @@ def run_tree(tier, seed):
         f = oracle_c20(r)
         if f:
             fails[i] = f
+    save_cmdlog("c20", tier, seed, cmd_start)
     return {"rows": rows, "mismatches": mism, "classes": classes, "errors": errors, "fails": fails, "skipped": len(skipped),
             "drive_s": round(drive_s, 1), "dir": base}
 
